@@ -35,6 +35,13 @@ type (
 	MyStr string
 )
 
+// PtrErr is an error implemented on a pointer receiver that dereferences it: a typed nil *PtrErr
+// inside an error interface panics when Error() is called directly (fmt's %v recovers from that).
+type PtrErr struct{ Msg string }
+
+// Error implements error.
+func (e *PtrErr) Error() string { return e.Msg }
+
 // OrigRan counts executions of the original bodies.
 var OrigRan [256]int64
 
